@@ -32,7 +32,7 @@ PROPS = {
     'C03': P('C03', [('render', 3000, 40000)], ('C03', 4000, 60000),
              "render stream: escape_html inputs and random event scripts (hostile payloads, empty strings, NUL, LF-terminated texts before cr) replayed into the REAL HTMLRenderer in both modes; oracle: recogniser of the safe output language on rendered hostile/generated documents under html-free configurations; non-trivial = payload with & < or quote / script with cr and >= 3 events",
              ["tag names and attribute names come from &'static str literals of the shipped node kinds (EventOK hypothesis); the per-kind render model is validated by the recorded-event oracle of C19"]),
-    'C04': P('C04', [], ('C04', 6000, 100000),
+    'C04': P('C04', [('link', 3000, 30000)], ('C04', 6000, 100000),
              "oracle: scheme spellings (case, named/decimal/hex references, escapes, embedded controls, percent escapes) x 8 syntactic positions; every Link/Image/Autolink url and every rendered href/src is fed to a WHATWG-style scheme extractor",
              ["browser behaviour is modelled by WHATWG URL pre-processing (strip C0/space at the ends, drop TAB/LF/CR) + ASCII-case-insensitive scheme"]),
     'C05': P('C05', [('inlineops', 2000, 30000)], ('C05', 6000, 100000),
